@@ -22,6 +22,12 @@ func (f *FailoverOf[V]) VerifKeyLocks() int {
 	return len(f.keyLocks)
 }
 
+// VerifBackend returns the backend in use (the one configured, or the default one created from BackendConfig).
+func (f *Failover) VerifBackend() ReadWriter { return f.backend }
+
+// VerifBackend returns the backend in use (the one configured, or the default one created from BackendConfig).
+func (f *FailoverOf[V]) VerifBackend() ReadWriterOf[V] { return f.backend }
+
 // VerifCleanup runs one cleanup cycle (delete expired, then evict) synchronously.
 func (c *ShardedMap) VerifCleanup() { c.t.invokeCleanup() }
 
